@@ -2,3 +2,4 @@ pub mod c08;
 pub mod c17;
 pub mod c19;
 pub mod c09;
+pub mod c07;
